@@ -701,7 +701,8 @@ class VTF:
 
             width >>= 1
             height >>= 1
-        self.mipmap_count = mip_count
+        # There is always at least the full-size image, even when a side is 1 and the loop stops at once.
+        self.mipmap_count = max(mip_count, 1)
 
     @classmethod
     def read(cls: 'type[VTF]', file: IO[bytes], header_only: bool = False) -> 'VTF':
